@@ -7,6 +7,7 @@ open Afkak.Consumer Afkak.Monitor Afkak.Consts
 
 variable [EnvHyp]
 
+set_option maxHeartbeats 800000 in
 /-- `_do_fetch` while the consumer is running -/
 theorem doFetch_good (cfg : Cfg) {s0 s : St} (h : Good cfg s0 s) (hr : s.startD ≠ .none) : Good cfg s0 (doFetch cfg s) := by
   unfold doFetch startErrback errbackRaises
